@@ -32,7 +32,7 @@ vgid_t g_mq_last_obj;
 int g_mq_last_front;
 unsigned g_relproc_calls;           /* svt_release_process calls */
 vgid_t g_relproc_last;
-unsigned g_cb_pushfront_calls, g_assign_calls;
+unsigned g_cb_pushes, g_assign_calls; int g_cb_last_front; int g_order_ok; int g_single_threaded;
 vgid_t g_cb_last, g_cb_last_obj, g_assign_last;
 unsigned g_fifo_pops;
 unsigned g_shutdowns; vgid_t g_shutdown_last;
@@ -42,6 +42,14 @@ unsigned g_shutdowns; vgid_t g_shutdown_last;
  * and happen after that FIFO's mutex has been released (only the queue mutex may still be held) */
 #define GHOST_POST_HOOK(h) do { if (!(g_last_fifo && GID(h) == g_last_sem && \
       g_fifo_pushes == g_posts && !g_is_held((EbHandle)g_last_fmutex))) g_post_matches = 0; } while (0)
+#endif
+#ifdef C23_L3
+extern unsigned g_relproc_calls; extern int g_order_ok;
+#define GHOST_WAIT_HOOK(h) do { if (g_relproc_calls != 1) g_order_ok = 0; } while (0)
+EbFifo *g_shut_fifo;
+#ifdef C23_L3_SHUTDOWN
+#define GHOST_POST_HOOK(h) do { if (!(g_shut_fifo->quit_signal == EB_TRUE && g_nheld == 0)) g_order_ok = 0; } while (0)
+#endif
 #endif
 #include "ghost_threads.h"
 
@@ -185,4 +193,10 @@ __CPROVER_ensures(g_post_matches == 1)
 __CPROVER_ensures(g_nheld == __CPROVER_old(g_nheld) && g_locks == g_unlocks + (unsigned)g_nheld - (unsigned)__CPROVER_old(g_nheld) + __CPROVER_old(g_locks) - __CPROVER_old(g_unlocks))
 __CPROVER_ensures(__CPROVER_return_value == EB_ErrorNone);
 #endif /* C23_L1 */
+#ifdef C23_L2
+#include "c23_l2.h"
+#endif
+#ifdef C23_L3
+#include "c23_l3.h"
+#endif
 #endif
